@@ -27,14 +27,14 @@ EXPLANATION = (
 
 
 def check(run, repo, tier):
-  w = World(repo)
+  V = H.guarded_views
   run.rule("C20-R2", "adjustment actions are applied before the record action they make room "
            "for", floor=2)
-  c11.r1_who_may_emit(run, w, "C20-R1", with_adds=True, extras_rule="C20-R2")
-  r3_sorted_rows(run, w)
-  r4_prepare(run, w)
+  V(run, repo, c11.r1_who_may_emit, "C20-R1", with_adds=True, extras_rule="C20-R2")
+  V(run, repo, r3_sorted_rows)
+  V(run, repo, r4_prepare)
   from ._extra import c20_adjustment_pairing
-  run.guard(c20_adjustment_pairing, run, w, "C20-R5")
+  V(run, repo, c20_adjustment_pairing, "C20-R5")
 
 
 def _super_calls(fn, meth):
